@@ -1,5 +1,68 @@
-import Gobptree.Ops
-namespace Gobptree
-theorem C06_placeholder : True := trivial
-end Gobptree
-#print axioms Gobptree.C06_placeholder
+/-
+  C06 — no deadlock: every operation eventually returns.
+
+  Status: the FULL statement (`C06_no_deadlock_statement`: some thread is enabled in every
+  reachable configuration with unfinished threads, for disciplined clients) is kept as a
+  definition and NOT yet proved in Lean; on the implementation side it is DECIDED (not
+  timed out) by the cooperative scheduler's wait-for graph over all schedules of the
+  cursor-next-to-Delete catalogue and random schedules.  Proved here: `Lock()` is the only
+  blocking primitive (a thread whose wanted mutex is free, or that is not waiting for a
+  mutex, can always step, and every step terminates — the model's step is a total
+  function, there are no retry loops), and the order in which Delete takes sibling locks.
+-/
+import Gobptree.Proofs.ConcReach
+
+namespace Gobptree.Conc
+open Gobptree
+
+variable {K V : Type}
+
+/-- FULL statement (not proved): for clients that respect the cursor discipline (the model
+    stops a thread that violates it, see `misuse`), in every reachable configuration with an
+    unfinished thread some thread is enabled. -/
+def C06_no_deadlock_statement : Prop :=
+  ∀ (P : Params Nat) (tree : Tree Nat Nat) (progs : List (List (COp Nat Nat))) (c : Config Nat Nat),
+    4 ≤ P.order → P.order % 2 = 0 → tree.order = P.order →
+    Reachable (Config.init P tree progs) c → c.dead = false → c.unfinished = true →
+    c.enabledSet ≠ []
+
+/-- **C06 (partial): only a held mutex blocks.** A thread waiting for a mutex that nobody
+    holds, a thread at a client/callback yield and a thread that has not started are all
+    enabled, and an enabled thread's step is defined: nothing but `Lock()` on a held mutex
+    ever makes an operation wait. -/
+theorem C06_only_locks_block_partial (c : Config K V) (t : Nat) (th : Thread K V)
+    (hth : c.threads[t]? = some th)
+    (hfree : match th.park with
+      | .want l _ => c.holder l = none
+      | .finished => False
+      | _ => True) :
+    ∃ c', c.step t = some c' := by
+  have hen : th.enabled c = true := by
+    unfold Thread.enabled
+    cases hp : th.park with
+    | start => rfl
+    | yielded k => rfl
+    | finished => rw [hp] at hfree; exact absurd hfree id
+    | want l k => rw [hp] at hfree; simp only at hfree; simp [hfree]
+  unfold Config.step
+  simp only [hth, hen, Bool.not_true, Bool.false_eq_true, if_false]
+  exact ⟨_, rfl⟩
+
+/-- **C06 (partial): Delete takes sibling locks left to right.** Whenever a Delete waits
+    for the child at some level it already holds that child's left sibling (if it has
+    one), and whenever it waits for the right sibling it already holds the child: the
+    left → child → right order of `deleteKey`, the direction cursors travel. -/
+theorem C06_delete_lock_order_partial (key : K) (frames : List Frame) (node index : Nat)
+    (left : Option Nat) (child root : Nat) (fr : Frame) (rest : List Frame) (right : Nat) :
+    (∀ l, left = some l → Lk.node l ∈ kontHeld (Kont.delChild (V := V) key frames node index left child root)) ∧
+    Lk.node fr.child ∈ kontHeld (Kont.delRight (V := V) key rest fr right root) ∧
+    (∀ l, fr.left = some l → Lk.node l ∈ kontHeld (Kont.delRight (V := V) key rest fr right root)) := by
+  refine ⟨?_, ?_, ?_⟩
+  · intro l hl; subst hl; simp [kontHeld, optLock]
+  · simp [kontHeld, framesHeld]
+  · intro l hl; simp [kontHeld, framesHeld, hl, optLock]
+
+end Gobptree.Conc
+
+#print axioms Gobptree.Conc.C06_only_locks_block_partial
+#print axioms Gobptree.Conc.C06_delete_lock_order_partial
